@@ -120,7 +120,7 @@ int run(const Args& A) {
     long ncases = A.cases > 0 ? A.cases : (A.thorough() ? 8000 : 600);
     std::string workdir = A.get("workdir", getenv("MDH_WORKDIR") ? getenv("MDH_WORKDIR") : ".");
     bool crossOK = A.getl("cross", 1) != 0;
-    bool domFromFile = A.getl("domfromfile", 0) != 0;   // 1: do not steer away from finding C14-F1
+    bool domFromFile = A.getl("domfromfile", 1) != 0;   // C14-F1 (domain::create(input&) order) is repaired in /repo (fix: 50387d1): no steering by default
     bool probe = A.getl("probe", 1) != 0;
     std::vector<Kind> kinds = allKinds(true, true);
     {
